@@ -21,7 +21,7 @@ RULE = ("grammars without useless symbols (filtered reference-side): nullable va
 ASSUMPTIONS = ["extra keys for terminals in FOLLOW are not judged", "only grammars without useless symbols are judged"]
 TIERS = {
     "quick": {"workers": 4, "random": 2500},
-    "thorough": {"workers": 16, "random": 20000, "pytest": True, "exhaustive": True, "hard_timeout": 3000},
+    "thorough": {"workers": 16, "random": 30000, "pytest": True, "exhaustive": True, "hard_timeout": 3000},
 }
 MIN = {"quick": {"C14.LLOneParser.get_first_set": 1000, "C14.LLOneParser.get_follow_set": 1000,
                  "C14.LLOneParser.is_llone_parsable": 1000, "C14.LLOneParser.get_llone_parse_tree": 5000},
